@@ -167,11 +167,19 @@ func (o *Once) Do(f func()) {
 	}
 }
 
-// WaitGroup replaces sync.WaitGroup.
+// WaitGroup replaces sync.WaitGroup. It does not wrap the real
+// sync.WaitGroup: inside testing/synctest bubbles (one per execution) the
+// runtime ties a real WaitGroup to the bubble that first used it, and over
+// many thousand short-lived bubbles go1.25.0 was observed to abort the process
+// with "WaitGroup.Add called from multiple synctest bubbles" for a WaitGroup
+// that only one bubble ever touched. Under the scheduler the wait is decided
+// by the scheduler (n <= 0); without it (free-running pass) waiters block on
+// a channel closed when the counter reaches zero.
 type WaitGroup struct {
-	wg rsync.WaitGroup
-	n  int64
-	hb uint64
+	mu      rsync.Mutex
+	n       int64
+	hb      uint64
+	waiters []chan struct{}
 }
 
 func (w *WaitGroup) Add(d int) {
@@ -180,8 +188,19 @@ func (w *WaitGroup) Add(d int) {
 		th.h = mix(mix(th.h, w.hb), 12)
 		w.hb = th.h
 	}
-	atomic.AddInt64(&w.n, int64(d))
-	w.wg.Add(d)
+	w.mu.Lock()
+	n := atomic.AddInt64(&w.n, int64(d))
+	var wake []chan struct{}
+	if n <= 0 {
+		wake, w.waiters = w.waiters, nil
+	}
+	w.mu.Unlock()
+	if n < 0 {
+		panic("vsync: negative WaitGroup counter")
+	}
+	for _, ch := range wake {
+		close(ch)
+	}
 }
 
 func (w *WaitGroup) Done() { w.Add(-1) }
@@ -191,7 +210,15 @@ func (w *WaitGroup) Wait() {
 	if s != nil {
 		s.park(th, op{kind: opWGWait, wg: w})
 	}
-	w.wg.Wait()
+	w.mu.Lock()
+	if atomic.LoadInt64(&w.n) <= 0 {
+		w.mu.Unlock()
+		return
+	}
+	ch := make(chan struct{})
+	w.waiters = append(w.waiters, ch)
+	w.mu.Unlock()
+	<-ch
 }
 
 func (w *WaitGroup) Go(f func()) {
